@@ -13,10 +13,15 @@
   `harness/c16_trigger.c` read that snapshot out of the running qmail-send at every `select` and print it with
   the timeout and descriptor sets the real code passed.  Theorems: `C16_no_spin`, `C16_early_return_acts`,
   `C16_sleep_justified`, `C16_exit_when_drained`, `C16_pre_epoch`.
+  "Earliest due event" independently of the heap root: `C16_never_past_any_queued` (over ALL entries of the four
+  priority queues, `Nq.Spec.SelQueued`; premise `HeapRoots`, discharged for prioq.c's model by `C16_roots_of_heap`
+  from C15's heap invariant and checked on the implementation's arrays by the driver).
 -/
 import Nq.Trigger
 import Nq.Lemmas.TriggerLive
 import Nq.Lemmas.SelPrep
+import Nq.Lemmas.SelQueued
+import Nq.Lemmas.SchedHeap
 
 namespace Nq.Props.C16
 open Nq Nq.Trigger
@@ -423,6 +428,73 @@ theorem C16_no_spin (s : Snap) (h0 : 0 ≤ s.recent) :
     · rw [hw]; exact lowerL_mem _ _
 
 open Nq.SelPrep in
+/-- **Never past ANY queued message.**  `C16_no_spin` speaks about the due times the code reads — the ROOT of each
+priority queue.  This is the property over everything that is queued (`Queued`: the due times of all entries of
+`pqchan[c]`, `pqfail`, `pqdone`; `queuedDue`: those the daemon can act on, plus the two timers): provided every
+`prioq_min` the loop read is a minimum of its queue (`HeapRoots`), the timeout is 0 exactly when immediate work
+exists or SOME queued entry / timer has been reached, and otherwise the wake-up time the select call asks for,
+`recent + timeout - SLEEP_FUZZ`, is at or before EVERY queued entry and timer, and is one of them (or
+`recent + SLEEP_FOREVER`).  The driver evaluates exactly these predicates on the implementation's timeout and
+the implementation's arrays (ORACLE) and the premise on the arrays (DISAGREE); the premise is what prioq.c
+guarantees (`C16_roots_of_heap`).  Without the premise the conclusion fails (example below). -/
+theorem C16_never_past_any_queued (s : Snap) (q : Queued) (h0 : 0 ≤ s.recent) (hr : HeapRoots s q) :
+    (timeout s = 0 ↔ pendingQ s q = true) ∧
+    (pendingQ s q = false →
+      0 < timeout s ∧
+      (∀ t, t ∈ queuedDue s q → s.recent + timeout s - SLEEP_FUZZ ≤ t) ∧
+      (s.recent + timeout s - SLEEP_FUZZ = s.recent + SLEEP_FOREVER ∨
+        s.recent + timeout s - SLEEP_FUZZ ∈ queuedDue s q)) := by
+  have hany : (∃ t, t ∈ queuedDue s q ∧ t ≤ s.recent) ↔ ∃ t, t ∈ dueTimes s ∧ t ≤ s.recent := by
+    constructor
+    · rintro ⟨t, ht, hle⟩
+      obtain ⟨m, hm, hmt⟩ := queued_ge_due s q hr t ht
+      exact ⟨m, hm, by omega⟩
+    · rintro ⟨t, ht, hle⟩
+      exact ⟨t, dueTimes_sub_queued s q hr t ht, hle⟩
+  have hq : pendingQ s q = true ↔ Pending s := by
+    rw [← pending_iff]
+    simp only [pendingQ, pending, Bool.or_eq_true, List.any_eq_true, decide_eq_true_eq, hany]
+  obtain ⟨h1, h2⟩ := C16_no_spin s h0
+  refine ⟨h1.trans hq.symm, ?_⟩
+  intro hn
+  have hnp : ¬ Pending s := fun hp => by rw [hq.2 hp] at hn; cases hn
+  obtain ⟨hpos, hto, hle, _, hmem, _⟩ := h2 hnp
+  have hw : s.recent + timeout s - SLEEP_FUZZ = wakeup s := by omega
+  refine ⟨hpos, ?_, ?_⟩
+  · intro t ht
+    obtain ⟨m, hm, hmt⟩ := queued_ge_due s q hr t ht
+    have := hle m hm
+    omega
+  · rw [hw]
+    rcases hmem with h | h
+    · exact Or.inl h
+    · exact Or.inr (dueTimes_sub_queued s q hr _ h)
+
+open Nq.SelPrep in
+/-- the premise `HeapRoots` is what prioq.c provides: for the model of prioq.c (`Nq.Sched.PQ`, C15) in heap order —
+which every sequence of `prioq_insert`/`prioq_delmin` preserves (`C15_heap`) — `prioq_min` fails exactly on the
+empty queue and otherwise returns an entry that no queued entry precedes. -/
+theorem C16_roots_of_heap (pq : Nq.Sched.PQ) (h : Nq.Sched.Heap pq) :
+    RootIsMin (pq.min.map (·.dt)) (pq.toList.map (·.dt)) := by
+  cases hm : pq.min with
+  | none =>
+    have hz := Nq.Lemmas.Sched.min_none pq hm
+    refine Or.inl ⟨rfl, ?_⟩
+    have : pq.toList = [] := List.eq_nil_of_length_eq_zero (by simpa using hz)
+    rw [this]; rfl
+  | some pe =>
+    obtain ⟨hne, hm0⟩ := Nq.Lemmas.Sched.min_eq pq pe hm
+    have h0 : 0 < pq.size := by omega
+    have hmem : pe ∈ pq.toList := by
+      rw [hm0, getElem!_pos pq 0 h0]
+      exact Array.mem_toList_iff.mpr (Array.getElem_mem h0)
+    refine Or.inr ⟨pe.dt, rfl, List.mem_map.2 ⟨pe, hmem, rfl⟩, ?_⟩
+    intro t ht
+    obtain ⟨e, he, rfl⟩ := List.mem_map.1 ht
+    rw [hm0]
+    exact Nq.Lemmas.Sched.heap_root_le_mem pq h e he
+
+open Nq.SelPrep in
 /-- pending work passes the guards of the loop body, whatever descriptors are ready and however far the clock
 has moved on -/
 theorem pending_acts (s : Snap) (r' : Int) (hr : s.recent ≤ r') (ready : Fd → Bool) (hp : Pending s) :
@@ -592,6 +664,24 @@ example : ¬ Pending { recent := 10, nexttodorun := 20, cleanuptime := 30 } := b
 
 /-- the pre-epoch case really sleeps -/
 example : timeout { recent := -5, flagcleanup := true, nexttodorun := 0, cleanuptime := 3 } = 6 := by decide
+
+-- complement of C16_never_past_any_queued (why its premise is checked on the implementation): a channel queue whose
+-- array is [t+3000, t+7] — the root is not the minimum, as after a sift-down that stops one level early — makes the
+-- same, correct, select preparation ask for 1501 s although a queued message is due in 7 s
+open Nq.SelPrep in
+example :
+    let s : Snap := { recent := 1000000000, chans := [{ conc := 5, pqMin := some 1000003000 }, { conc := 5 }], jobRefs := [0, 0],
+                      nexttodorun := 1000001500, cleanuptime := 1000076431 }
+    let q : Queued := { chans := [[1000003000, 1000000007], []] }
+    timeout s = 1501 ∧ heapRoots s q = false ∧ pendingQ s q = false ∧
+      (queuedDue s q).any (fun t => decide (s.recent + timeout s - SLEEP_FUZZ > t)) = true := by decide
+-- ... and with the root in place (array [t+7, t+3000]) the premise holds and the daemon wakes for the message: 8 s
+open Nq.SelPrep in
+example :
+    let s : Snap := { recent := 1000000000, chans := [{ conc := 5, pqMin := some 1000000007 }, { conc := 5 }], jobRefs := [0, 0],
+                      nexttodorun := 1000001500, cleanuptime := 1000076431 }
+    let q : Queued := { chans := [[1000000007, 1000003000], []] }
+    timeout s = 8 ∧ heapRoots s q = true ∧ (queuedDue s q).all (fun t => decide (s.recent + timeout s - SLEEP_FUZZ ≤ t)) = true := by decide
 end
 
 /-- the bound of `C16_bounded` is attained: entry 5 is linked and signalled while a scan that does not see it is
